@@ -483,6 +483,7 @@ func (fv *FuncVerifier) readGlobal(st *State, o *types.Var) Val {
 	fv.eng.global(name, o)
 	if fv.eng.globalImmutable(o) {
 		fv.note("package-level variable " + o.Pkg().Name() + "." + o.Name() + " assumed never reassigned after initialisation")
+		fv.globalInit(st, name, o)
 		return Val{T: name, Ty: o.Type()}
 	}
 	// mutable global: arbitrary value on each read
@@ -1085,4 +1086,85 @@ func (fv *FuncVerifier) aliasTarget(e ast.Expr) ast.Expr {
 		return nil
 	}
 	return fv.aliases[o]
+}
+
+// globalInit: an immutable package-level variable of value type (struct / array / basic) equals its
+// initialiser when that is a heap-free expression (constants, composite literals of such).
+func (fv *FuncVerifier) globalInit(st *State, name string, o *types.Var) {
+	if fv.globalsDone == nil {
+		fv.globalsDone = map[string]bool{}
+	}
+	if fv.globalsDone[name] {
+		return
+	}
+	fv.globalsDone[name] = true
+	switch o.Type().Underlying().(type) {
+	case *types.Struct, *types.Array, *types.Basic:
+	default:
+		return
+	}
+	var pk *pkgT
+	if p, ok := fv.eng.pkgs[o.Pkg().Path()]; ok {
+		pk = p
+	} else if p, ok := fv.eng.depPkgs[o.Pkg().Path()]; ok {
+		pk = p
+	}
+	if pk == nil || pk != fv.pkg {
+		return // initialiser expressions are only evaluated in the package under verification
+	}
+	for _, f := range pk.Syntax {
+		for _, d := range f.Decls {
+			gd, ok := d.(*ast.GenDecl)
+			if !ok || gd.Tok != token.VAR {
+				continue
+			}
+			for _, sp := range gd.Specs {
+				vs := sp.(*ast.ValueSpec)
+				for i, nm := range vs.Names {
+					if pk.TypesInfo.Defs[nm] != o {
+						continue
+					}
+					if i >= len(vs.Values) {
+						if len(vs.Values) == 0 {
+							fv.assumeGlobal("(= " + name + " " + fv.eng.sc.zero(o.Type()) + ")")
+						}
+						return
+					}
+					if !heapFreeInit(vs.Values[i]) {
+						return
+					}
+					scratch := st.clone()
+					fv.quiet++
+					v := fv.evalElt(scratch, vs.Values[i], o.Type())
+					fv.quiet--
+					fv.assumeGlobal("(= " + name + " " + v.T + ")")
+					return
+				}
+			}
+		}
+	}
+}
+
+func heapFreeInit(e ast.Expr) bool {
+	ok := true
+	ast.Inspect(e, func(n ast.Node) bool {
+		switch x := n.(type) {
+		case *ast.CallExpr, *ast.FuncLit, *ast.UnaryExpr:
+			if u, isU := x.(*ast.UnaryExpr); isU && u.Op != token.AND {
+				return true
+			}
+			ok = false
+		case *ast.CompositeLit:
+			if _, isArr := x.Type.(*ast.ArrayType); isArr {
+				if at := x.Type.(*ast.ArrayType); at.Len == nil {
+					ok = false // slice literal
+				}
+			}
+			if _, isMap := x.Type.(*ast.MapType); isMap {
+				ok = false
+			}
+		}
+		return ok
+	})
+	return ok
 }
